@@ -45,6 +45,8 @@ struct Cfg {
   int latency;  // 1: Export of the batch child's exporter is slow
   int destroy;  // provider destroyed without explicit Shutdown
   int slow_first;  // procs == 2: the slow exporter belongs to the FIRST child (an earlier child uses up the flush budget)
+  int xfail;    // bit x: exporter x reports failure from Export, ForceFlush and Shutdown (the fault alphabet of the statement);
+                // the other children must be flushed and shut down all the same
 };
 std::vector<Cfg> g_cfgs;
 std::string g_oracle;
@@ -99,9 +101,10 @@ template <class Base, class Rec, class RecBase>
 class Exporter final : public Base {
   int id_;
   bool slow_;
+  bool fail_;
 
  public:
-  Exporter(int id, bool slow) : id_(id), slow_(slow) {}
+  Exporter(int id, bool slow, bool failing = false) : id_(id), slow_(slow), fail_(failing) {}
   std::unique_ptr<RecBase> MakeRecordable() noexcept override { return std::unique_ptr<RecBase>(new Rec()); }
   sdkc::ExportResult Export(const nostd::span<std::unique_ptr<RecBase>> &batch) noexcept override {
     int idx = g->log(EXP_ENTER, id_, (int)batch.size());
@@ -111,10 +114,10 @@ class Exporter final : public Base {
     else g->tick.fetch_add(1);
     --g->inflight[id_];
     g->log(EXP_EXIT, id_);
-    return sdkc::ExportResult::kSuccess;
+    return fail_ ? sdkc::ExportResult::kFailure : sdkc::ExportResult::kSuccess;
   }
-  bool ForceFlush(microseconds) noexcept override { g->log(XFF_ENTER, id_); g->log(XFF_EXIT, id_); return true; }
-  bool Shutdown(microseconds) noexcept override { g->xsd_calls[id_]++; g->log(XSD_ENTER, id_); g->tick.fetch_add(1); g->log(XSD_EXIT, id_); return true; }
+  bool ForceFlush(microseconds) noexcept override { g->log(XFF_ENTER, id_); g->log(XFF_EXIT, id_); return !fail_; }
+  bool Shutdown(microseconds) noexcept override { g->xsd_calls[id_]++; g->log(XSD_ENTER, id_); g->tick.fetch_add(1); g->log(XSD_EXIT, id_); return !fail_; }
 };
 using SpanExp = Exporter<sdkt::SpanExporter, SpanRec, sdkt::Recordable>;
 using LogExp = Exporter<sdkl::LogRecordExporter, LogRec, sdkl::Recordable>;
@@ -207,17 +210,17 @@ void run_cfg(vf::Ctx &c, const Cfg &cfg) {
     sdkt::BatchSpanProcessorOptions o;
     o.max_queue_size = 8; o.max_export_batch_size = 2; o.schedule_delay_millis = milliseconds(kDelayMs);
     int id = 0;
-    if (cfg.procs == 1) procs.emplace_back(new sdkt::SimpleSpanProcessor(std::unique_ptr<sdkt::SpanExporter>(new SpanExp(id++, false))));
-    if (cfg.procs == 2) procs.emplace_back(new sdkt::BatchSpanProcessor(std::unique_ptr<sdkt::SpanExporter>(new SpanExp(id++, cfg.latency == 1 && cfg.slow_first)), o));
-    procs.emplace_back(new sdkt::BatchSpanProcessor(std::unique_ptr<sdkt::SpanExporter>(new SpanExp(id++, cfg.latency == 1 && !cfg.slow_first)), o));
+    if (cfg.procs == 1) procs.emplace_back(new sdkt::SimpleSpanProcessor(std::unique_ptr<sdkt::SpanExporter>(new SpanExp(id, false, (cfg.xfail >> id) & 1)))), ++id;
+    if (cfg.procs == 2) procs.emplace_back(new sdkt::BatchSpanProcessor(std::unique_ptr<sdkt::SpanExporter>(new SpanExp(id, cfg.latency == 1 && cfg.slow_first, (cfg.xfail >> id) & 1)), o)), ++id;
+    procs.emplace_back(new sdkt::BatchSpanProcessor(std::unique_ptr<sdkt::SpanExporter>(new SpanExp(id, cfg.latency == 1 && !cfg.slow_first, (cfg.xfail >> id) & 1)), o)), ++id;
     nexp = id;
     drive_provider<sdkt::TracerProvider, sdkt::SpanProcessor>(c, cfg, std::move(procs), produce_span);
   } else {
     std::vector<std::unique_ptr<sdkl::LogRecordProcessor>> procs;
     int id = 0;
-    if (cfg.procs == 1) procs.emplace_back(new sdkl::SimpleLogRecordProcessor(std::unique_ptr<sdkl::LogRecordExporter>(new LogExp(id++, false))));
-    if (cfg.procs == 2) procs.emplace_back(new sdkl::BatchLogRecordProcessor(std::unique_ptr<sdkl::LogRecordExporter>(new LogExp(id++, cfg.latency == 1 && cfg.slow_first)), 8, milliseconds(kDelayMs), 2));
-    procs.emplace_back(new sdkl::BatchLogRecordProcessor(std::unique_ptr<sdkl::LogRecordExporter>(new LogExp(id++, cfg.latency == 1 && !cfg.slow_first)), 8, milliseconds(kDelayMs), 2));
+    if (cfg.procs == 1) procs.emplace_back(new sdkl::SimpleLogRecordProcessor(std::unique_ptr<sdkl::LogRecordExporter>(new LogExp(id, false, (cfg.xfail >> id) & 1)))), ++id;
+    if (cfg.procs == 2) procs.emplace_back(new sdkl::BatchLogRecordProcessor(std::unique_ptr<sdkl::LogRecordExporter>(new LogExp(id, cfg.latency == 1 && cfg.slow_first, (cfg.xfail >> id) & 1)), 8, milliseconds(kDelayMs), 2)), ++id;
+    procs.emplace_back(new sdkl::BatchLogRecordProcessor(std::unique_ptr<sdkl::LogRecordExporter>(new LogExp(id, cfg.latency == 1 && !cfg.slow_first, (cfg.xfail >> id) & 1)), 8, milliseconds(kDelayMs), 2)), ++id;
     nexp = id;
     drive_provider<sdkl::LoggerProvider, sdkl::LogRecordProcessor>(c, cfg, std::move(procs), produce_log);
   }
@@ -328,7 +331,14 @@ void setup(vf::Options &o) {
       { Cfg c = z; c.mode = 1; c.T = 1; c.n = 1; c.F = 1; c.fft = 1; c.latency = 1; c.procs = 2; g_cfgs.push_back(c); }
       { Cfg c = z; c.mode = 1; c.T = 1; c.n = 1; c.S = 2; c.procs = 1; g_cfgs.push_back(c); }
       { Cfg c = z; c.mode = 1; c.T = 1; c.n = 1; c.destroy = 1; g_cfgs.push_back(c); }
+      // an exporter that reports failure (Export kFailure, ForceFlush false, Shutdown false) behind the FIRST child: the
+      // later children are flushed and shut down all the same, once, and nothing happens after Shutdown returned
+      { Cfg c = z; c.mode = 1; c.T = 1; c.n = 1; c.procs = 2; c.xfail = 1; g_cfgs.push_back(c); }
+      { Cfg c = z; c.mode = 1; c.T = 1; c.n = 1; c.procs = 1; c.xfail = 1; g_cfgs.push_back(c); }
+      { Cfg c = z; c.mode = 1; c.T = 1; c.n = 1; c.procs = 2; c.xfail = 1; c.F = 1; g_cfgs.push_back(c); }
       if (th) {
+        { Cfg c = z; c.mode = 1; c.T = 1; c.n = 1; c.procs = 2; c.xfail = 2; c.F = 1; g_cfgs.push_back(c); }
+        { Cfg c = z; c.mode = 1; c.T = 1; c.n = 1; c.procs = 2; c.xfail = 3; c.S = 1; g_cfgs.push_back(c); }
         { Cfg c = z; c.mode = 1; c.T = 1; c.n = 2; c.F = 1; c.procs = 2; g_cfgs.push_back(c); }
         { Cfg c = z; c.mode = 1; c.T = 2; c.n = 1; c.F = 1; c.S = 1; c.procs = 1; g_cfgs.push_back(c); }
       }
